@@ -3,7 +3,7 @@
 # runs confirmed seeds (default: all) against the check of their own property (tier $SEED_TIER, default quick); rewrites their rows in seeded/RESULTS.tsv
 cd /verif
 touch seeded/RESULTS.tsv
-DIRS="$@"; [ -z "$DIRS" ] && DIRS=$(ls -d seeded/C??-? | sort -V)
+DIRS="$@"; [ -z "$DIRS" ] && DIRS=$(ls -d seeded/C??-[0-9]* | sort -V)
 for d in $DIRS; do
   d=${d%/}
   ID=$(basename $d | cut -d- -f1)
